@@ -221,6 +221,7 @@ func (bs *blockState) applyContractX(spec *FuncSpec, key string, args []Val, ins
 		res = e.freshVal("ret."+short, resT)
 		bs.e.assume(bs.g, e.typeFacts(res))
 		bs.e.assume(bs.g, e.inputBound(res))
+		bs.e.assume(bs.g, e.allocatedFacts(bs.st, res))
 		if tup, ok := resT.(*types.Tuple); ok {
 			lo := 0
 			for i := 0; i < tup.Len(); i++ {
